@@ -15,7 +15,7 @@ from ..harness import _SETUP, qcall, tree_hash
 
 ID = "C12"
 LEVEL = "exploration"
-BUDGET = {"quick": 640, "thorough": 8000}
+BUDGET = {"quick": 640, "thorough": 32000}
 TECHNIQUE = "schedule exploration with a schedule-owning pool (exhaustive per pool call for <= 4 tasks, Hypothesis-drawn joint schedules, eager / lazy) plus a real-process differential tier with worker counts and per-task delays"
 RULE = ("Hypothesis-generated case = entry point in {reader [] selections, reader .iter, level iteration, taste, "
         "colander, combine, chef (parallel vs serial), mandoline 2D, mandoline 3D array, mandoline 3D plotfile, pestle, "
